@@ -471,8 +471,11 @@ CMR_ERROR CMRgraphCreateFromEdgeList(CMR* cmr, CMR_GRAPH** pgraph, CMR_ELEMENT**
     uToken = s;
     while (*s && !isspace(*s))
       ++s;
-    *s = '\0';
-    ++s;
+    if (*s)
+    {
+      *s = '\0';
+      ++s;
+    }
 
     /* Scan for whitespace */
     while (*s && isspace(*s))
@@ -484,8 +487,11 @@ CMR_ERROR CMRgraphCreateFromEdgeList(CMR* cmr, CMR_GRAPH** pgraph, CMR_ELEMENT**
     vToken = s;
     while (*s && !isspace(*s))
       ++s;
-    *s = '\0';
-    ++s;
+    if (*s)
+    {
+      *s = '\0';
+      ++s;
+    }
 
     /* Scan for whitespace */
     while (*s && isspace(*s))
@@ -496,8 +502,11 @@ CMR_ERROR CMRgraphCreateFromEdgeList(CMR* cmr, CMR_GRAPH** pgraph, CMR_ELEMENT**
       elementToken = s;
       while (*s && !isspace(*s))
         ++s;
-      *s = '\0';
-      ++s;
+      if (*s)
+      {
+        *s = '\0';
+        ++s;
+      }
     }
     else
     {
